@@ -40,6 +40,26 @@ Theorem merge_last_writer_wins : forall k, atom_key k -> forall kvs acc,
 Proof. exact merge_last_writer_wins_lemma. Qed.
 Print Assumptions merge_last_writer_wins.
 
+(* Sum / Fold with iadd over strings: the start value comes first, then every item in order (a start value is never
+   a separator: the round-9 seed `ret.join(iterator)` refutes exactly this statement) *)
+Theorem str_fold_is_concatenation : forall strs s,
+  fold_loop OIadd (VStr s) (map VStr strs) = Ok (VStr (s ++ String.concat "" strs)).
+Proof. exact str_fold_concat_lemma. Qed.
+Print Assumptions str_fold_is_concatenation.
+
+(* Sum() over integers: the start value plus the arithmetic sum *)
+Theorem int_fold_is_sum : forall zs a,
+  fold_loop OIadd (VInt a) (map VInt zs) = Ok (VInt (a + fold_right Z.add 0%Z zs)).
+Proof. exact int_fold_sum_lemma. Qed.
+Print Assumptions int_fold_is_sum.
+
+(* Flatten / Sum(init=list) over lists: the accumulator allocated by init() (label i) extended by every item's
+   elements in order; it stays that object (label kept) and no item is aliased into it *)
+Theorem list_fold_is_concatenation : forall (ls : list (nat * list val)) i acc,
+  fold_loop OIadd (VList i acc) (map (fun p => VList (fst p) (snd p)) ls) = Ok (VList i (acc ++ List.concat (map snd ls))).
+Proof. exact list_fold_concat_lemma. Qed.
+Print Assumptions list_fold_is_concatenation.
+
 (* a non-iterable target raises FoldError *)
 Theorem fold_noniterable_is_FoldError : forall k o t,
   (match t with VNone | VBool _ | VInt _ | VStr _ | VObj _ _ _ | VFun _ => True | _ => False end) ->
@@ -52,4 +72,6 @@ Example ex_flatten : fold IList OIadd (VList 1 [VList 2 [VInt 1]; VTuple 3 [VInt
 Proof. vm_compute. reflexivity. Qed.
 Example ex_merge : fold (IDict false) OUpdate (VList 1 [VDict 2 false [(VStr "a", VInt 1)]; VDict 3 false [(VStr "a", VInt 2); (VStr "b", VInt 3)]])
   = Ok (VDict 0 false [(VStr "a", VInt 2); (VStr "b", VInt 3)]).
+Proof. vm_compute. reflexivity. Qed.
+Example ex_str_start : fold (IStrOf ">") OIadd (VList 1 [VStr "a"; VStr "b"; VStr "c"]) = Ok (VStr ">abc").
 Proof. vm_compute. reflexivity. Qed.
